@@ -12,6 +12,7 @@ for name, u in cfg["units"].items():
     shapes = {}
     trusted = {}
     derives = {}
+    callees = {}
     for prof in u.get("profiles", [{"name": "default", "defines": {}}]):
         d = dict(u.get("defines", {}), **prof.get("defines", {}))
         text, origins, log = template.build(os.path.join(ROOT, u["vc"]), os.environ.get("VERIF_REPO", "/repo"), d)
@@ -19,9 +20,12 @@ for name, u in cfg["units"].items():
         shapes.update(log.loop_shapes)
         trusted.update(log.trusted_text)
         derives.update(log.derives)
+        for q, c in log.callees.items():
+            callees[q] = sorted(set(callees.get(q, [])) | set(c))
     u["expected_not_under_contract"] = sorted(drops)
     u["expected_loop_shapes"] = shapes
     u["expected_trusted_text"] = trusted
     u["expected_derives"] = derives
+    u["expected_callees"] = callees
     print(name, len(drops))
 json.dump(cfg, open(os.path.join(ROOT, "units.json"), "w"), indent=1)
